@@ -545,7 +545,7 @@ def run(tier: str, replay: str | None = None):
         for c in corpus:
             b = add_base(c["base_lines"], c.get("tags") or ["to"] * len(c["base_lines"]))
             variants.append({"base": b, "cfg": c["cfg"], "edits": [tuple(e) for e in c["edits"]], "baseline_cfg": c.get("baseline_cfg")})
-        n_prog = 18 if tier == "quick" else 160
+        n_prog = 18 if tier == "quick" else 80
         specials = special_pairs(rng, 8 if tier == "quick" else 48)
         for pi in range(n_prog):
             lines, tags = gen_program(rng, size=1 if pi < 6 else None)
@@ -568,7 +568,7 @@ def run(tier: str, replay: str | None = None):
             d0 = d0s[bi]
             if base_res[bi]["error"]:
                 continue
-            exhaustive = tier == "thorough" and bi % 4 == 0
+            exhaustive = tier == "thorough" and bi % 5 == 0
             for es in single_edits(rng, lines, tags, d0, names, exhaustive):
                 variants.append({"base": bi, "cfg": base_cfg, "edits": es})
             for es in multi_edits(rng, lines, tags, d0, 4 if tier == "quick" else 10):
